@@ -1,5 +1,6 @@
 import Mqtt5V.Model.Enc
 import Mqtt5V.Model.PropsText
+import Mqtt5V.Model.Validate
 /-! line-protocol front end of the encoder model -/
 open Mqtt5V Mqtt5V.Wire Mqtt5V.Model Mqtt5V.Model.PropsText Mqtt5V.Gen.PropTable
 
@@ -59,8 +60,38 @@ def parsePacket (ws : List String) : Option Packet :=
     pure (.connect (← natsOfHex cid) (← optStr user) (← optStr pass) (← ka.toNat?) (← cs.toNat?) (canon connectProps (← parsePlist pl)) w)
   | _ => none
 
+def capsOf (ps : Props) : Validate.Caps :=
+  let n := Validate.numOf ps
+  { maxQos := (n 36).getD 2, retainAvailable := (n 37).getD 1, topicAliasMax := (n 34).getD 0, maxPacket := (n 39).getD 268435460,
+    wildcardAvailable := (n 40).getD 1, subIdAvailable := (n 41).getD 1, sharedAvailable := (n 42).getD 1 }
+
+def showReq : Except Nat Bs → String
+  | .ok b => "ok " ++ showBytes b
+  | .error e => s!"err {e}"
+
+def valStep (ws : List String) : String :=
+  match ws with
+  | ["pub", caps, pid, q, r, t, p, pl] =>
+    match parsePlist caps, pid.toNat?, q.toNat?, r.toNat?, natsOfHex t, natsOfHex p, parsePlist pl with
+    | some cp, some pid, some q, some r, some t, some p, some ps =>
+      showReq (Validate.publishRequest (capsOf cp) pid q r t p (canon publishProps ps))
+    | _, _, _, _, _, _, _ => "bad-op"
+  | "sub" :: caps :: pid :: pl :: n :: rest =>
+    match parsePlist caps, pid.toNat?, parsePlist pl, n.toNat? with
+    | some cp, some pid, some ps, some n =>
+      match parseSubTopics n rest with
+      | some ts => showReq (Validate.subscribeRequest (capsOf cp) pid ts (canon subscribeProps ps))
+      | none => "bad-op"
+    | _, _, _, _ => "bad-op"
+  | _ => "bad-op"
+
 def step (ws : List String) : String :=
   match ws with
+  | "val" :: rest => valStep rest
+  | "dupenc" :: rest =>
+    match parsePacket rest with
+    | some p => showBytes (Enc.setDup (Enc.setDup (Enc.encode p)))
+    | none => "bad-op"
   | "enc" :: rest =>
     match parsePacket rest with
     | some p => showBytes (Enc.encode p)
